@@ -205,7 +205,19 @@ impl Transport for TcpEnd {
 
 /// An ephemeral port that was free a moment ago.
 pub fn free_port() -> u16 {
-    std::net::TcpListener::bind("127.0.0.1:0").and_then(|l| l.local_addr()).map(|a| a.port()).unwrap_or(0)
+    // never the same port twice in one process (listeners are started concurrently), and free on
+    // the IPv6 wildcard too (some listeners bind `[::]`)
+    static HANDED_OUT: std::sync::Mutex<Vec<u16>> = std::sync::Mutex::new(Vec::new());
+    let mut handed = HANDED_OUT.lock().unwrap_or_else(|e| e.into_inner());
+    for _ in 0..200 {
+        let Ok(port) = std::net::TcpListener::bind("127.0.0.1:0").and_then(|l| l.local_addr()).map(|a| a.port()) else { continue };
+        if handed.contains(&port) || std::net::TcpListener::bind(("::", port)).is_err() {
+            continue;
+        }
+        handed.push(port);
+        return port;
+    }
+    0
 }
 
 /// Waits until something accepts connections on `addr`.
